@@ -70,7 +70,10 @@ func transparent(a io.ReadWriter, b io.ReadWriter, setDeadline func(time.Time), 
 	return oneWay(a, b, payload) && oneWay(b, a, rev)
 }
 
+var managerCases int
+
 func managerCase(g *gen, dist map[string]int) (string, []map[string]string) {
+	managerCases++
 	vm := visitor.NewManager()
 	listeners := map[string]*netpkg.InternalListener{} // current (or last) listener handed out per name
 	sks := map[string]string{}
@@ -83,12 +86,21 @@ func managerCase(g *gen, dist map[string]int) (string, []map[string]string) {
 	var ops, obs []string
 	var fails []map[string]string
 	var cid int64
+	forceName := ""
 	n := 6 + g.Intn(18)
-	flood := g.Chance(0.03) // one case in ~30 fills a queue beyond its capacity
+	flood := g.Chance(0.02) || managerCases == 2 // the second case of a run and one in ~50 overfill a queue
 	for i := 0; i < n; i++ {
 		r := g.Intn(100)
 		if i < 2 {
 			r = 0
+		}
+		if managerCases == 3 && i == 2 && len(sks) > 0 {
+			// one history per run closes a live listener and then sends it a correctly signed, allowed visitor
+			forceName = hx.SortedKeys(sks)[0]
+			_ = listeners[forceName].Close()
+			ops = append(ops, fmt.Sprintf("VmListenerClose %s", hx.HxS(forceName)))
+			obs = append(obs, obsZ(0))
+			r = 50
 		}
 		switch {
 		case r < 15:
@@ -110,6 +122,9 @@ func managerCase(g *gen, dist map[string]int) (string, []map[string]string) {
 			dist[fmt.Sprintf("listen:%d", z)]++
 		case r < 70:
 			name := g.liveName(sks)
+			if forceName != "" {
+				name = forceName
+			}
 			ts := g.ts()
 			ht.addTs(ts)
 			realSk, live := sks[name]
@@ -120,10 +135,16 @@ func managerCase(g *gen, dist map[string]int) (string, []map[string]string) {
 			user := g.userFor(allows[name])
 			ue, uc := g.Chance(0.5), g.Chance(0.5)
 			reps := 1
-			if flood && live {
+			if forceName != "" && name == forceName && live && len(allows[name]) > 0 {
+				sign, kind = util.GetAuthKey(realSk, ts), "right"
+				user = allows[name][0]
+				forceName = ""
+			}
+			if flood && live && len(allows[name]) > 0 {
 				reps = 131
 				flood = false
 				sign, kind = util.GetAuthKey(realSk, ts), "right"
+				user = allows[name][0]
 			}
 			for k := 0; k < reps; k++ {
 				cid++
